@@ -34,4 +34,27 @@ head, tail = s.split('//@GENERATED-PAIRS', 1)
 m = re.search(r'//@END-GENERATED-PAIRS', tail)
 rest = tail[m.end():] if m else tail
 open(p, 'w').write(head + '//@GENERATED-PAIRS\n' + '\n'.join(out) + '\n    //@END-GENERATED-PAIRS' + rest)
-print(len(out))
+
+# ---- folds
+out2 = []
+W = [('add', 0, 'parse_float_add', 'crate::js_op::parse_float', '+ folds parseFloat conversions from 0'),
+     ('mul', 1, 'parse_float_mul', 'crate::js_op::parse_float', '* folds parseFloat conversions from 1'),
+     ('max', 2, 'abstract_max', 'crate::js_op::to_number', 'max of Number conversions'),
+     ('min', 3, 'abstract_min', 'crate::js_op::to_number', 'min of Number conversions')]
+for nm, which, fn, target, d in W:
+    for n in range(0, 5):
+        if which >= 2 and n == 0:
+            continue
+        for pat in range(0, 1 << n):
+            tier = 'quick' if (n <= 2 and pat == (1 << n) - 1) else 'thorough'
+            dom = 'every double' if which >= 2 else 'a 16-value grid of concrete doubles per operand'
+            pats = ''.join('N' if (pat >> i) & 1 else 'x' for i in range(n)) or 'empty'
+            h = 'k_c10_fold_%s_%d_%s' % (nm, n, pats)
+            out2.append('    //@ob name=C10.fold.%s.%d.%s harness=%s props=C10,C01 tier=%s strength=bounded bound="%d operands (numeric/non-numeric pattern %s); operand conversions: %s" fns=js_op::%s stubs=4 timeout=400 cutdrop=1' % (nm, n, pats, h, tier, n, pats, dom, fn))
+            out2.append('    //@ desc="%s over %d operands: Err iff some operand is non-numeric, else exactly the left fold; conversions by contract"' % (d, n))
+            out2.append('    fold_harness!(%s, %d, %d, %s, %d);' % (h, n, which, fn, pat))
+s = open(p).read()
+head, tail = s.split('//@GENERATED-FOLDS', 1)
+rest = tail[tail.index('//@END-GENERATED-FOLDS'):]
+open(p, 'w').write(head + '//@GENERATED-FOLDS\n' + '\n'.join(out2) + '\n' + rest)
+print(len(out), len(out2))
